@@ -649,6 +649,10 @@ class _GrantSpec:
                 prior_none = any(a.rel == "==" and a.R is not None and a.R.const == self.NONE and a.L.node is not None
                                  and ex.path(f, a.L.node) == path for a in atoms.atoms_at(f, eid))
                 if prior_none:
+                    # no previous owner on this path: the lookup result was found NULL in front of the store
+                    if any(a.rel == "==" and a.R is not None and a.R.const == 0 and a.L.locals == {self.owner} and not a.L.fields
+                           and not a.L.calls for a in atoms.atoms_at(f, eid)):
+                        return "done"
                     return "granted"
             if who == self.owner and v == self.NONE and S == "granted":
                 return "done"
